@@ -93,8 +93,9 @@ where
 		crate::codec::compact_encode_len_to(&mut vec, items_to_append)?;
 	} else {
 		let old_item_count = u32::from(Compact::<u32>::decode(&mut &vec[..])?);
-		let new_item_count = old_item_count
-			.checked_add(items_to_append as u32)
+		let new_item_count = u32::try_from(items_to_append)
+			.ok()
+			.and_then(|items_to_append| old_item_count.checked_add(items_to_append))
 			.ok_or("cannot append new items into a SCALE-encoded vector: length overflow due to too many items")?;
 
 		let old_item_count_encoded_bytesize = Compact::<u32>::compact_len(&old_item_count);
